@@ -24,7 +24,7 @@ var c02Tags = map[string]*log.Tag{}
 func init() {
 	for _, n := range c02TagNames {
 		c02Universe[n] = true
-		c02Tags[n] = log.RegisterTag(n)
+		c02Tags[n] = regTag(n)
 	}
 }
 
